@@ -1,4 +1,5 @@
 """C06 - data connections go to / are advertised at exactly the negotiated endpoint (pure part: parse 227/229, format PORT/EPRT)."""
+from props.client_props import gen_c06_client
 from rng import hx
 
 PRE = b"229 Entering Extended Passive Mode "
@@ -85,7 +86,8 @@ def gen_pure(ctx):
 
 PROP = {
     "id": "C06",
-    "stages": [{"name": "pure", "target": "h_pure", "gen": gen_pure}],
+    "stages": [{"name": "pure", "target": "h_pure", "gen": gen_pure},
+               {"name": "client", "target": "h_client", "gen": gen_c06_client, "shard": 12}],
     "trivial_tags": [],
     "rule": "real try_parse_epsv_reply / try_parse_pasv_reply / make_port_command / make_eprt_command (private statics, harness built with "
             "-fno-access-control) on the stated exhaustive scopes, single-character edits of well-formed replies, malformed field lists and "
